@@ -96,7 +96,7 @@ fn one_more_commit(w: &mut World, gs: &mut Vec<(usize, VGroup)>, what: &str) {
     };
     {
         let g = &mut gs[0].1;
-        let _ = guarded(|| g.apply_pending_commit());
+        let _ = guarded(|| g.apply_pending_alt());
     }
     for (i, g) in gs.iter_mut().skip(1) {
         let m = out.commit_message.clone();
@@ -174,7 +174,7 @@ fn reinit_case(w: &mut World) -> Result<(), String> {
     let insider_src = act.iter().copied().find(|i| *i != c);
     {
         let g = w.gm(c);
-        match guarded(|| g.apply_pending_commit()) {
+        match guarded(|| g.apply_pending_alt()) {
             Ok(Ok(d)) if matches!(d.effect, CommitEffect::ReInit(_)) => {}
             Ok(Ok(_)) => w.violate("C17|reinit_commit_effect_missing|committer", format!("member {c}")),
             Ok(Err(e)) => return Err(format!("apply reinit commit: {e:?}")),
